@@ -15,7 +15,7 @@ import ast
 
 from ..index import AnchorMissing, Unrecognised
 from ..cfg import CFG
-from ..astutil import linear_body, u, body_walk, local_env, func_calls, walk_local, always_terminates, statements, root_name
+from ..astutil import linear_body, u, body_walk, local_env, func_calls, walk_local, always_terminates, statements, root_name, inline_locals
 from .. import sym
 
 EXPLANATION = ("Static path and dataflow analysis of the chunk reader: a statement-level CFG of read_chunk is searched for paths on which bytes already "
@@ -561,6 +561,13 @@ def r8_request_and_terminator(ctx):
         k = sym.poly(cnt)
         ok_sample = isinstance(sample, ast.Subscript) and sym.canon(sample.value) == f"{pend}[-1]" and isinstance(sample.slice, ast.Slice) and sample.slice.upper is None \
             and sample.slice.lower is not None and sym.poly(sample.slice.lower) == -k and k.is_const() and k.const_value() >= 1
+        if not ok_sample:
+            # the whole last pending piece as the sample (possibly through a local): every one of its bytes is already queued
+            envl = {x.targets[0].id: x.value for x in body_walk(f.node) if isinstance(x, ast.Assign) and isinstance(x.targets[0], ast.Name) and x.lineno < t.lineno and x.targets[0].id != pend}
+            s2, c2 = inline_locals(sample, envl), inline_locals(cnt, envl)
+            if sym.canon(s2) == f"{pend}[-1]" and sym.canon(c2) in (f"{pend}[-1].size", f"len({pend}[-1])"):
+                ok_sample = True
+                k = sym.poly(c2)
         if not ok_sample:
             raise Unrecognised(f"{f.where}: end-of-file terminator is built from `{u(sample)}` with count `{u(cnt)}`: not the last k pending bytes")
         tgt = t.targets[0]
